@@ -154,10 +154,10 @@ Proof.
 Qed.
 
 (* ---------- the body ---------- *)
-Theorem v00_body_rt c : wf00 c -> k0_frames c <> [] ->
+Theorem v00_body_rt c : wf00 c ->
   RTp (read_v0_0 (k0_header c)) (spec_body00 c) (p_body (first_person_view c)).
 Proof.
-  intros [Hh [Hver [Hfps [HF [Hne [HL2 [HL Hfr]]]]]]] Hne0.
+  intros [Hh [Hver [Hfps [HF [Hne [HL2 [HL Hfr]]]]]]].
   set (h := k0_header c) in *. set (L := spec_floats_per_point h) in *.
   assert (Hnd : num_dims h = Ok (Z.of_N (spec_dims h))).
   { rewrite (num_dims_spec _ Hne). unfold spec_dims. fold L. f_equal. lia. }
@@ -172,9 +172,6 @@ Proof.
   { rewrite to_nat_lenN, <- (map_length (frame_result (total_points h) (spec_dims h))). apply RTp_prep.
     clear - HL HL2 Hfr. induction Hfr as [|f frames [Hf1 Hf2] _ IH]; cbn [map]; constructor; [|exact IH].
     now apply (frame00_rt h L). }
-  destruct (k0_frames c) as [|f0 frames]; [contradiction|]. cbn [map]. cbv iota.
-  change (frame_result (total_points h) (spec_dims h) f0 :: map (frame_result (total_points h) (spec_dims h)) frames)
-    with (map (frame_result (total_points h) (spec_dims h)) (f0 :: frames)).
   destruct (Z.leb_spec (Z.of_N (spec_dims h)) 0) as [Hbad|_]; [unfold spec_dims in Hbad; fold L in Hbad; lia|].
   rewrite !flat_map_map. cbn [fst snd frame_result].
   fold mask_or. rewrite frames_mask_ok, N2Z.id.
@@ -202,24 +199,24 @@ Proof.
   unfold read_v0_0. apply v0prog_bind; [cbn; auto|]. intros ff.
   apply v0prog_bind; [apply v0prog_plift|]. intros D.
   apply v0prog_bind; [apply v0prog_prep, v0prog_rd_frame00|]. intros frames.
-  destruct frames; [exact I|]. destruct (D <=? 0)%Z; exact I.
+  destruct (D <=? 0)%Z; exact I.
 Qed.
 
 (* ---------- Pose.read ---------- *)
-Theorem v00_read_bytes c m a x : wf00 c -> k0_frames c <> [] -> MemoOK m ->
+Theorem v00_read_bytes c m a x : wf00 c -> MemoOK m ->
   fst (read_bytes c04_legacy m (spec00 c ++ x) a) = Ok (first_person_view c).
 Proof.
-  intros Hwf Hne Hm. pose proof Hwf as [Hh [Hver _]].
+  intros Hwf Hm. pose proof Hwf as [Hh [Hver _]].
   unfold spec00. rewrite <- app_assoc.
   rewrite (bytes_header c04_legacy m _ a _ _ Hm (spec_header_parsed _ (spec_body00 c ++ x) Hh)).
   unfold read_body, read_body_with. rewrite Hver. cbn [c04_legacy].
-  rewrite (v00_body_rt c Hwf Hne (spec_header (k0_header c)) x).
+  rewrite (v00_body_rt c Hwf (spec_header (k0_header c)) x).
   reflexivity.
 Qed.
-Theorem v00_read_stream c m a x : wf00 c -> k0_frames c <> [] -> MemoOK m ->
+Theorem v00_read_stream c m a x : wf00 c -> MemoOK m ->
   fst (fst (read_stream4 c04_legacy m (spec00 c ++ x) a)) = Ok (first_person_view c).
 Proof.
-  intros Hwf Hne Hm.
+  intros Hwf Hm.
   destruct (any_arg a) eqn:Ha.
   - pose proof Hwf as [Hh [Hver _]].
     apply (stream4_of_bytes_v0 c04_legacy m (spec00 c ++ x) a (k0_header c) (lenN (spec_header (k0_header c)))); try assumption.
@@ -229,18 +226,14 @@ Proof.
   - rewrite read_stream4_noargs by exact Ha. now apply v00_read_bytes.
 Qed.
 
-(* a file that declares zero frames is rejected (numpy.ma.stack of an empty list) *)
-Theorem v00_zero_frames_rejected c m a : wf00 c -> k0_frames c = [] -> MemoOK m ->
-  fst (read_bytes c04_legacy m (spec00 c) a) = Err Value.
+(* a file that declares zero frames decodes to the empty pose of shape (0, 1, points, dims) *)
+Corollary v00_zero_frames c m a : wf00 c -> k0_frames c = [] -> MemoOK m ->
+  fst (read_bytes c04_legacy m (spec00 c) a) = Ok (first_person_view c) /\
+  b_shape (p_body (first_person_view c)) = [0; 1; spec_points (k0_header c); spec_dims (k0_header c)] /\
+  b_data (p_body (first_person_view c)) = [] /\ b_conf (p_body (first_person_view c)) = [] /\
+  b_mask (p_body (first_person_view c)) = [].
 Proof.
-  intros Hwf H0 Hm. pose proof Hwf as [Hh [Hver [Hfps [_ [Hne [HL2 _]]]]]].
-  unfold spec00.
-  rewrite (bytes_header c04_legacy m _ a _ _ Hm (spec_header_parsed _ (spec_body00 c) Hh)).
-  unfold read_body, read_body_with. rewrite Hver. cbn [c04_legacy].
-  unfold read_v0_0, spec_body00. rewrite H0. cbn [map concat]. rewrite app_nil_r.
-  rewrite run_plain_bind.
-  pose proof (u16x2_rt (k0_fps c) (lenN (@nil (list person00))) Hfps ltac:(unfold u16, lenN; cbn; lia)
-                (spec_header (k0_header c)) []) as H1.
-  rewrite app_nil_r in H1. rewrite H1.
-  rewrite (num_dims_spec _ Hne). cbn [plift pbind snd]. reflexivity.
+  intros Hwf H0 Hm. split.
+  - rewrite <- (app_nil_r (spec00 c)). now apply v00_read_bytes.
+  - unfold first_person_view. cbn [p_body b_shape b_data b_conf b_mask]. rewrite H0. repeat split.
 Qed.
